@@ -112,6 +112,9 @@ PROPS["C29"] = B("cases are 1-4 writer tasks x 1-4 uniquely numbered lines again
 PROPS["C34"] = B("cases are 2-4 concurrent tasks x 1-3 calls from {Join, Leave, Shutdown, State} on one real node (with a real passive peer, optionally already joined so that Leave broadcasts and waits), plus the PRNG-chosen schedule at every lock/channel yield of the instrumented serf package and fake-clock advances racing with runnable goroutines (Leave sleeps on timers); distinct = distinct (workload, schedule) hash; non-trivial = more than one decision point with several runnable goroutines",
     "Seeded schedule exploration of the real lifecycle calls. Oracle: the process survives; the globally ordered State() samples are monotone in alive<leaving<left<shutdown; Shutdown always returns nil and leaves the state at shutdown; Leave after a completed Leave returns nil; a Join invoked after the caller itself observed a non-alive state is refused; every call returns (step cap). Exact replay.",
     quick=(2500, 60), thorough=(150000, 1200))
+PROPS["C07"] = B("cases are 1-3 queries (ack on/off, timeouts 0.5-3 s) issued concurrently on a real node with a 3-member memberlist, then 3-14 replies (acks, responses, duplicates from the same node, wrong id, wrong Lamport time, from unknown nodes) delivered by 1-3 concurrent tasks, optionally one more concurrent Query, with fake-clock advances racing so that the timeout closes streams between reply steps; plus the PRNG-chosen schedule at every lock/channel yield; distinct = distinct (workload, schedule) hash; non-trivial = more than one decision point with several runnable goroutines",
+    "Seeded schedule exploration of the real reply routing (overlay copies of serf.go/query.go with yields, cooperative mutexes). Oracle per query: at most one ack and one response per node, every payload carries the query's own tag, both streams are closed after the deadline, and the process survives (send on closed channel / double close are fatal and attributed to the run). Exact replay.",
+    quick=(2500, 60), thorough=(150000, 1200))
 PROPS["C14"] = D("cases are seeded histories against a real Serf node whose snapshot lives on simfs: user events and queries delivered by gossip and push/pull, real joins (with/without ignoreOld) against a real peer holding events, fake-time advances around the 500 ms flush interval, and 1-3 restarts (crash: only bytes already handed to the OS survive; or clean shutdown) followed by old and new messages; distinct = distinct step-list hash; non-trivial = messages injected after a restart",
     "Seeded exploration; E and Q are read by the real recovery from the image the restart starts from; any user event with time <= E or query with time <= Q on the application channel after the restart is a violation. Exact replay.",
     quick=(2500, 60), thorough=(100000, 1200),
